@@ -7,6 +7,7 @@ import (
 	"go/parser"
 	"go/token"
 	"go/types"
+	"math/big"
 	"sort"
 	"strings"
 	"sync"
@@ -55,9 +56,11 @@ type decl struct {
 }
 
 type typesOutcome struct {
-	OK    bool
-	Msg   string // first error
-	Decls []decl // objects declared in main's body, in source order (only when OK)
+	OK  bool
+	Msg string // first error
+	// Classes: the classes (errClass) of all the errors go/types reports
+	Classes []string
+	Decls   []decl // objects declared in main's body, in source order (only when OK)
 	// Quirk: the program has a shift whose count is a typed constant of non-integer type;
 	// go/types accepts it (the count of a non-constant shift is not looked at when it is a
 	// typed constant), the language specification does not.
@@ -80,6 +83,10 @@ type typesOutcome struct {
 	// with it needs more than the 512 bits of mantissa Scriggo keeps (the specification allows
 	// rounding; go/constant stays exact longer), e.g. `var x int = 30/1e400 + 34`. Not judged.
 	HugeFloat bool
+	// NonDyadic: some constant subexpression has an exact value that is not a binary fraction
+	// (e.g. 76 / 1000.0). Not a reason to skip anything: used only to recognise the recorded
+	// finding "untyped-float-constant-arithmetic-not-exact" on an already failing, shrunk case.
+	NonDyadic bool
 	// RefBug: the constant division MinInt64 / -1, which go/constant's int64 fast path wraps to
 	// MinInt64 (the exact quotient 2^63 does not fit int/int64): the reference is wrong, the
 	// case is not judged.
@@ -139,11 +146,13 @@ func checkTypes(src string) typesOutcome {
 		return typesOutcome{Msg: "syntax: " + err.Error()}
 	}
 	var first error
+	var classes []string
 	conf := types.Config{
 		Error: func(e error) {
 			if first == nil {
 				first = e
 			}
+			classes = append(classes, errClass(e.Error()))
 		},
 	}
 	conf.Importer = theImporter
@@ -158,7 +167,7 @@ func checkTypes(src string) typesOutcome {
 		b, ok := tv.Type.Underlying().(*types.Basic)
 		return ok && b.Info()&types.IsUntyped == 0 && b.Info()&types.IsInteger == 0
 	}
-	fdz, big := false, false
+	fdz, bigShift := false, false
 	bigCount := func(y goast.Expr) bool {
 		tv, ok := info.Types[y]
 		if !ok || tv.Value == nil {
@@ -218,7 +227,7 @@ func checkTypes(src string) typesOutcome {
 			if n.Op == token.SHL || n.Op == token.SHR {
 				untypedCount = untypedCount || isUntypedCount(n.Y)
 				quirk = quirk || isQuirk(n.Y)
-				big = big || bigCount(n.Y)
+				bigShift = bigShift || bigCount(n.Y)
 			}
 			if n.Op == token.QUO {
 				fdz = fdz || floatDivZero(n.X, n.Y)
@@ -232,7 +241,7 @@ func checkTypes(src string) typesOutcome {
 				if n.Tok == token.SHL_ASSIGN || n.Tok == token.SHR_ASSIGN {
 					untypedCount = untypedCount || isUntypedCount(n.Rhs[0])
 					quirk = quirk || isQuirk(n.Rhs[0])
-					big = big || bigCount(n.Rhs[0])
+					bigShift = bigShift || bigCount(n.Rhs[0])
 				}
 				if n.Tok == token.QUO_ASSIGN {
 					fdz = fdz || floatDivZero(n.Lhs[0], n.Rhs[0])
@@ -241,10 +250,26 @@ func checkTypes(src string) typesOutcome {
 		}
 		return true
 	})
-	out := typesOutcome{OK: first == nil, Quirk: quirk, FloatDivZero: fdz, BigShift: big, RefBug: refBug,
+	nonDyadic := false
+	for _, tv := range info.Types {
+		if tv.Value == nil || tv.Value.Kind() != constant.Float {
+			continue
+		}
+		den := constant.Denom(tv.Value)
+		if den.Kind() != constant.Int {
+			continue
+		}
+		if d, ok := new(big.Int).SetString(den.ExactString(), 10); ok && d.Sign() > 0 {
+			if new(big.Int).And(d, new(big.Int).Sub(d, big.NewInt(1))).Sign() != 0 {
+				nonDyadic = true
+			}
+		}
+	}
+	out := typesOutcome{OK: first == nil, NonDyadic: nonDyadic, Quirk: quirk, FloatDivZero: fdz, BigShift: bigShift, RefBug: refBug,
 		UntypedCount: untypedCount, HugeFloat: hugeFloat}
 	if first != nil {
 		out.Msg = first.Error()
+		out.Classes = classes
 		return out
 	}
 	type od struct {
